@@ -9,6 +9,7 @@ import (
 	"os"
 	"sort"
 	"strconv"
+	"strings"
 )
 
 // Code represents an item of code that can be rendered.
@@ -158,6 +159,12 @@ func (f *File) renderImports(source io.Writer) error {
 
 	if separateCgo {
 		for _, c := range f.cgoPreamble {
+			if strings.HasPrefix(c, "//") || strings.HasPrefix(c, "/*") {
+				// A comment in raw form is written as it is, and a newline at its end would
+				// leave an empty line below it: cgo ignores a preamble that is not adjacent
+				// to the import.
+				c = strings.TrimRight(c, "\n")
+			}
 			if err := Comment(c).render(f, source, nil); err != nil {
 				return err
 			}
